@@ -23,7 +23,7 @@ CHECKS = {
         'text': 'Only the shape-level part is decided: the 0 -> inf -> diagonal-reset order after each search and where reachability flags come from; initial inf '
                 'off the diagonal for the label-correcting routines; operands, diagonal exclusion and n^2-n divisor of the global efficiencies, means over the '
                 'retained entries in charpath; the BFS/Dijkstra/Floyd relaxation kernels (add n to newly reached pairs only, keep the minimum, strict '
-                'comparison, hops on strict improvement); private distance routines of efficiency_* agree with distance_bin/distance_wei.',
+                'comparison, hops on strict improvement, every node of a set settled together is relaxed from -- no early exit of that loop); private distance routines of efficiency_* agree with distance_bin/distance_wei.',
         'note': 'NOT decided (the bulk of the property): that each algorithm yields the minimum over all paths, tie handling, agreement between the five '
                 'routines. These quantify over runtime values; a different technique family (exhaustive small-graph comparison against an oracle) is needed.',
     },
@@ -43,7 +43,8 @@ CHECKS = {
         'technique': 'specialisation equivalence by term rewriting under the 0/1 assumption and sympy normal forms; clone and feature agreement re-used from C03/C08/C15; use-before-binarize scan',
         'text': 'clustering_coef_wd -> _bd, transitivity_wd -> _bd, strengths -> degrees: the weighted result, rewritten with cuberoot(x)=x, (x!=0)=x, binarize(x)=x, '
                 'has the same normal form as the binary result, hence equal values on every 0/1 matrix; in/out degrees are column/row sums (equal to the undirected '
-                'degree on symmetric input); private/public distance routines are clones; Brandes and k-core siblings agree feature by feature; routines '
+                'degree on symmetric input); private/public distance routines are clones; the weighted search settles all nodes of equal length together and '
+                'relaxes from each of them (on 0/1 input every level is such a set); Brandes and k-core siblings agree feature by feature; routines '
                 'documented to ignore weights see their argument only through binarize or a nonzero test.',
         'note': 'NOT decided: pairs implemented by different algorithms (*_wu vs *_bu, distance_wei vs distance_bin, betweenness_wei vs betweenness_bin, '
                 'efficiency_wei vs efficiency_bin, directed vs undirected clustering/transitivity on symmetric input, assortativity).',
@@ -75,7 +76,8 @@ CHECKS = {
         'text': 'For the three Brandes-style routines: settled nodes are recorded by `Q[q] = v; q -= 1`, so the free slots after the search are Q[:q+1] and '
                 'must receive exactly the unreachable set before the dependency loop; strict improvement resets path count and predecessor row, ties add, '
                 'nothing else writes them; in the breadth-first routines the fill is guarded only by tests that hold whenever a slot is free; dependencies are '
-                'propagated over Q[:n-1] with (1+DP[w]) NP[v]/NP[w] to every predecessor unconditionally (no continue/break in the loop), identical for node and edge '
+                'propagated over Q[:n-1] with (1+DP[w]) NP[v]/NP[w] to every predecessor unconditionally (no continue/break in the loop), the loop over the '
+                'nodes settled together is never left early, identical for node and edge '
                 'accumulators; all per-source state is created inside the source loop; node part of edge_betweenness_wei equals betweenness_wei and the '
                 'binary/weighted edge routines agree; betweenness_bin keeps its sentinel order, recursion and column sum.',
         'note': 'That these bookkeeping facts yield the exact shortest-path fractions (Brandes\' theorem, tie handling by exact float equality) is cited, '
@@ -215,7 +217,9 @@ CHECKS = {
         'technique': 'copy/identity typestate (alias engine, both copy modes), CFG dominance, name resolution, sympy formula canonicalisation, AST patterns with metavariables',
         'text': 'Necessary structural conditions on every path: copy=True leaves the argument untouched and returns fresh memory; copy=False returns '
                 'the argument object itself, which is the object written; range precondition dominates all effects; diagonal clear dominates every '
-                'return; `round` resolves to teachers_round; kept-count canonicalises to (n^2-n)p/ud; symmetric branch zeroes a triangle, halves the '
+                'return; `round` resolves to teachers_round; the one statement that thresholds zeroes W at (rows[order][en:], cols[order][en:]) with rows/cols the two '
+                'components of np.where(W) taken after the triangle removal, order the descending argsort of exactly those entries and en = '
+                'int(round(X)) where X canonicalises to (n^2-n)p/ud (local names resolved through their single definitions); symmetric branch zeroes a triangle, halves the '
                 'count and rebuilds W+W.T by slice store; element-wise masks of binarize/normalize/invert/threshold_absolute have the documented '
                 'form and nothing else writes W; weight_conversion dispatch equals its docstring table.',
         'note': 'Does not decide: which entries argsort ranks first among ties, exact counts produced by floating-point p*count beyond the use of '
